@@ -206,7 +206,7 @@ pub fn gen_plan(prop: &str, seed: u64, index: u64, tier: Tier) -> Plan {
         #[cfg(not(chess_verif_shuttle))]
         "C11" => tables::gen_plan(prop, seed, index, tier),
         #[cfg(chess_verif_shuttle)]
-        "C09" | "C07" | "C10" => sched::gen_plan(prop, seed, index, tier),
+        "C09" | "C07" | "C10" | "C12" => sched::gen_plan(prop, seed, index, tier),
         other => {
             eprintln!("no scenario for property {} in this build", other);
             std::process::exit(2);
@@ -229,7 +229,7 @@ fn exec_raw(plan: &Plan) -> Outcome {
         #[cfg(not(chess_verif_shuttle))]
         "C11" => tables::exec(plan),
         #[cfg(chess_verif_shuttle)]
-        "C09" | "C07" | "C10" => sched::exec(plan),
+        "C09" | "C07" | "C10" | "C12" => sched::exec(plan),
         other => {
             eprintln!("no executor for property {} / scenario {} in this build", other, plan.scenario);
             std::process::exit(2);
